@@ -248,8 +248,8 @@ def _r17_3(prog: Program, res: Result) -> None:
                 seen["Not"] = True
                 ok = norm(v) == f"{p}.operand"
                 res.decide(ok, "R17.3", fn.loc(ret), fn.fq, f"Not: {norm(ret)}", "not (not a) = a" if ok else "double negation does not return the operand")
-    from ..model import last_return
-    last = last_return(fn.node)
+    from ..model import default_return
+    last = default_return(prog, fn)
     if isinstance(last, ast.Return):
         seen["default"] = True
         v = last.value
